@@ -96,6 +96,9 @@ func (r *Reader) StrLen() (int, error) {
 	if n < 0 {
 		return 0, errors.Errorf("size %d is invalid", n)
 	}
+	if err := verifCheckStrLen(n); err != nil {
+		return 0, err
+	}
 
 	return n, nil
 }
